@@ -115,9 +115,22 @@ func c13Reset(c *vcore.Ctx) *vcore.Violation {
 		kSymLinks = []container.SymbolicLink{{LinkPath: "/w/in", Target: "/tmp"}, {LinkPath: "/dev/fd", Target: "/proc/self/fd"}}
 	}
 	defer func() { kSymLinks = nil }()
+	// the extra writable mounts: names unrelated to the standard ones, names that merely begin like one of them
+	// ("work", "tmpx" next to "w", "tmp")
+	var extraNames []string
+	if extraTmp {
+		switch src.Pick("extra_tmpfs_names", "scratch", "work", "tmpx_and_work") {
+		case "scratch":
+			extraNames = []string{"scratch"}
+		case "work":
+			extraNames = []string{"work"}
+		default:
+			extraNames = []string{"tmpx", "work"}
+		}
+	}
 	ct, err := kBuildContainer(func(b *mount.Builder) {
-		if extraTmp {
-			b.WithTmpfs("scratch", "size=4m")
+		for _, n := range extraNames {
+			b.WithTmpfs(n, "size=4m")
 		}
 	}, cred, nil)
 	if err != nil {
@@ -125,10 +138,7 @@ func c13Reset(c *vcore.Ctx) *vcore.Violation {
 	}
 	defer ct.destroy()
 	initPid := container.VInitPid(ct.env)
-	mounts := []string{"w", "tmp"}
-	if extraTmp {
-		mounts = append(mounts, "scratch")
-	}
+	mounts := append([]string{"w", "tmp"}, extraNames...)
 	c.Logf("container cred=%v writable tmpfs mounts=%v", cred != nil, mounts)
 	c.MarkNonTrivial()
 	ntenants := 1 + src.Int(3, "ntenants")
@@ -173,7 +183,7 @@ func c13Reset(c *vcore.Ctx) *vcore.Violation {
 			if len(names) > 0 {
 				kind := "residue_after_reset"
 				site := "mount:" + m
-				if m == "scratch" {
+				if m != "w" && m != "tmp" {
 					site = "mount:custom_tmpfs"
 				}
 				return vcore.Violate(prop, kind, site, "after Reset (err=%v) /%s still contains %s", rerr, m, strings.Join(names, ", "))
@@ -341,11 +351,74 @@ func (r *pieceReader) Read(p []byte) (int, error) {
 	return n, nil
 }
 
+// c13MemfdHuge: a regular file of a little more than 2 GiB (sparse, with markers around the places where 31- and
+// 32-bit counts end) handed to the copier as an open file: the sealed copy has every byte of it.
+func c13MemfdHuge(c *vcore.Ctx) *vcore.Violation {
+	const prop = "C13"
+	size := int64(2<<30) + 12<<10 + 5
+	if c.Src.Bool(1, 3, "memfd_huge_4g") {
+		size = int64(4<<30) + 4097
+	}
+	c.Logf("memfd: a sparse regular file of %d bytes as an open file", size)
+	c.Event(fmt.Sprintf("memfd:huge:%d", size))
+	c.Fault("memfd_source_beyond_2GiB")
+	c.MarkNonTrivial()
+	tf, err := os.CreateTemp(c.Dir, "c13huge")
+	if err != nil {
+		vcore.Harnessf("tempfile: %v", err)
+	}
+	defer tf.Close()
+	os.Remove(tf.Name())
+	if err := tf.Truncate(size); err != nil {
+		vcore.Harnessf("truncate: %v", err)
+	}
+	marks := []int64{0, 1<<31 - 4096 - 8, 1<<31 - 1, 1<<31 + 100, size - 5}
+	if size > 4<<30 {
+		marks = append(marks, 1<<32-3, 1<<32+7)
+	}
+	for i, off := range marks {
+		if off+4 <= size {
+			tf.WriteAt([]byte{0xA0 + byte(i), 0x55, 0xAA, byte(i)}, off)
+		}
+	}
+	tf.Seek(0, io.SeekStart)
+	var f *os.File
+	var derr error
+	if !watchdog(120*time.Second, func() { f, derr = memfd.DupToMemfd("verifhuge", tf) }) {
+		return vcore.Violate(prop, "hang", "memfd/huge", "DupToMemfd of a %d byte file did not return", size)
+	}
+	if derr != nil {
+		if errors.Is(derr, syscall.ENOMEM) || errors.Is(derr, syscall.ENOSPC) {
+			vcore.VoidRun("no_memory_for_huge_memfd")
+		}
+		return vcore.Violate(prop, "memfd_failed", "memfd/huge", "DupToMemfd of a %d byte regular file failed: %v", size, derr)
+	}
+	defer f.Close()
+	st, err := f.Stat()
+	if err != nil || st.Size() != size {
+		return vcore.Violate(prop, "content_differs", "memfd/huge", "the sealed copy of a %d byte regular file has %d bytes (%v)", size, st.Size(), err)
+	}
+	for i, off := range marks {
+		if off+4 > size {
+			continue
+		}
+		got := make([]byte, 4)
+		f.ReadAt(got, off)
+		if !bytes.Equal(got, []byte{0xA0 + byte(i), 0x55, 0xAA, byte(i)}) {
+			return vcore.Violate(prop, "content_differs", "memfd/huge", "the sealed copy of a %d byte file differs at offset %d: %x", size, off, got)
+		}
+	}
+	return nil
+}
+
 func c13Memfd(c *vcore.Ctx) *vcore.Violation {
 	const prop = "C13"
 	src := c.Src
 	if src.Bool(1, 5, "memfd_concurrent") {
 		return c13MemfdConcurrent(c)
+	}
+	if src.Bool(1, 60, "memfd_huge") {
+		return c13MemfdHuge(c)
 	}
 	shape := src.Pick("memfd_shape", "copy", "copy", "execute")
 	probeBytes, err := os.ReadFile(probePath)
